@@ -371,7 +371,7 @@ func (r *Replica) TxMeta(bz []byte, auth string) J {
 	if !ok {
 		tn = fmt.Sprintf("type%d", tx.Type)
 	}
-	m := J{"type": tn, "hash": r.KR.Tok(tmtypes.Tx(bz).Hash()), "from": r.KR.Name(tx.From), "to": r.KR.Name(tx.To),
+	m := J{"type": tn, "hash": r.KR.Tok(tmtypes.Tx(bz).Hash()), "from": r.KR.NameAddr(tx.From), "to": r.KR.NameAddr(tx.To),
 		"fromLen": len(tx.From), "toLen": len(tx.To),
 		"amount": Limbs(tx.Amount), "nonce": small64(int64(tx.Nonce)), "nonceBig": tx.Nonce > 1<<30, "gas": LimbsU64(tx.Gas), "gasPrice": Limbs(tx.GasPrice),
 		"auth": auth, "payload": J{"kind": "none"}}
